@@ -194,8 +194,10 @@ class Merged:
         self.cover = {}
         self.shards = 0
 
-    def add(self, res, hashes):
+    def add(self, res, hashes, optimized=False):
         self.shards += 1
+        if optimized:
+            self.counters["shards_run_under_python_O"] += 1
         self.counters.update(res["counters"])
         self.evaluations += res["evaluations"]
         self.distinct_capped |= res["distinct_capped"]
@@ -211,7 +213,7 @@ class Merged:
             cur = self.violations.get(v["key"])
             if cur is None:
                 if len(self.violations) < MAX_VIOLATION_KEYS:
-                    self.violations[v["key"]] = dict(v)
+                    self.violations[v["key"]] = dict(v, python_optimize=optimized)
             else:
                 cur["count"] += v["count"]
         for r in res["inconclusive"]:
@@ -280,6 +282,16 @@ def _read_hashes(path):
     return a
 
 
+def _optimized_shard(i):
+    return i % 3 == 2
+
+
+def _spawn_shard(prop, tier, i, out, optimized):
+    return subprocess.Popen([sys.executable] + (["-O"] if optimized else []) + ["-B", "-m", "vlib.runner", prop, "--tier", tier,
+                                                                               "--shard", str(i), "--out", out], cwd=VERIF,
+                            stdout=subprocess.DEVNULL, stderr=subprocess.PIPE)
+
+
 def _run_parallel(prop, tier, nshards, merged, jobs, shard_timeout):
     tmp = tempfile.mkdtemp(prefix=f"vcheck-{prop}-")
     pending = list(range(nshards))
@@ -289,9 +301,9 @@ def _run_parallel(prop, tier, nshards, merged, jobs, shard_timeout):
             while pending and len(running) < jobs:
                 i = pending.pop(0)
                 out = os.path.join(tmp, f"shard{i}.json")
-                p = subprocess.Popen([sys.executable, "-B", "-m", "vlib.runner", prop, "--tier", tier,
-                                      "--shard", str(i), "--out", out], cwd=VERIF,
-                                     stdout=subprocess.DEVNULL, stderr=subprocess.PIPE)
+                # (every third shard runs under an optimising interpreter, python -O, as production deployments do: assert statements
+                # and __debug__ blocks of the tree under test are compiled away there)
+                p = _spawn_shard(prop, tier, i, out, optimized=_optimized_shard(i))
                 running[i] = (p, out, time.time())
             time.sleep(0.05)
             for i in list(running):
@@ -311,7 +323,7 @@ def _run_parallel(prop, tier, nshards, merged, jobs, shard_timeout):
                     continue
                 with open(out) as f:
                     res = json.load(f)
-                merged.add(res, _read_hashes(out + ".hashes"))
+                merged.add(res, _read_hashes(out + ".hashes"), optimized=_optimized_shard(i))
                 os.unlink(out)
                 try:
                     os.unlink(out + ".hashes")
@@ -330,6 +342,8 @@ def _write_replay(prop, v, tier, seed):
     tag = hashlib.sha256(v["key"].encode("utf-8", "replace")).hexdigest()[:12]
     path = os.path.join(OUT, "replays", f"{prop}-{tag}.json")
     rec = {"property": prop, "key": v["key"], "msg": v["msg"], "count": v["count"], "tier": tier, "seed": seed, "witness": v["witness"]}
+    if v.get("python_optimize"):
+        rec["python_optimize"] = True       # first seen in a shard that ran under python -O: the replay runs there too
     try:
         text = json.dumps(rec, indent=1, default=repr)
     except (RecursionError, ValueError, TypeError) as e:
@@ -380,6 +394,8 @@ def main(argv=None):
     if args.replay:
         with open(args.replay) as f:
             rec = json.load(f)
+        if rec.get("python_optimize") and not sys.flags.optimize:
+            os.execv(sys.executable, [sys.executable, "-O", "-B", "-m", "vlib.runner"] + list(sys.argv[1:] if argv is None else argv))
         ctx = Ctx(prop, args.tier, seed, "replay")
         ctx.replaying = True
         _limit_memory()
@@ -397,9 +413,35 @@ def main(argv=None):
         _limit_memory()
         plan = mod.plan(tier, seed)
         if tier == "quick" or len(plan) == 1 or args.jobs <= 1:
+            side = None
+            if args.jobs > 1 and not os.environ.get("VERIF_NO_OPTIMIZED_SHARD"):
+                # beside the in-process run, shard 0 once more in a child under an optimising interpreter (python -O)
+                side_dir = tempfile.mkdtemp(prefix=f"vcheck-{prop}-O-")
+                side_out = os.path.join(side_dir, "shard0.json")
+                side = (_spawn_shard(prop, tier, 0, side_out, optimized=True), side_out, side_dir)
             for i, params in enumerate(plan):
                 ctx = run_shard(mod, prop, tier, seed, i, params)
                 merged.add(ctx.result(), ctx._distinct)
+            if side is not None:
+                p, side_out, side_dir = side
+                try:
+                    try:
+                        p.wait(timeout=float(os.environ.get("VERIF_SHARD_TIMEOUT") or 3600))
+                    except subprocess.TimeoutExpired:
+                        p.kill()
+                        p.wait()
+                        merged.inconclusive_because("shard under python -O: wall-clock watchdog fired")
+                    else:
+                        err = p.stderr.read().decode("utf-8", "replace")
+                        if p.returncode != 0 or not os.path.exists(side_out):
+                            merged.inconclusive_because(f"shard under python -O: process ended with status {p.returncode}: {err[-800:]}")
+                        else:
+                            with open(side_out) as f:
+                                merged.add(json.load(f), _read_hashes(side_out + ".hashes"), optimized=True)
+                finally:
+                    for f_ in os.listdir(side_dir):
+                        os.unlink(os.path.join(side_dir, f_))
+                    os.rmdir(side_dir)
         else:
             _run_parallel(prop, tier, len(plan), merged, args.jobs,
                           float(os.environ.get("VERIF_SHARD_TIMEOUT") or 3600))
